@@ -627,6 +627,135 @@ pub fn pattern_with(rng: &mut Rng, forced: Option<u64>) -> (Pos, &'static str) {
                     p.stm = p.stm.other();
                 }
             }
+            21 => {
+                // Black, in check along a diagonal, can interpose with a double push; the white pawn beside the landing
+                // square can then take en passant and reopen the line (a discovered check through the captured pawn's square)
+                name = "ep_capture_discovers_check";
+                let pf = rng.range(1, 6) as i32;
+                let side = if rng.chance(1, 2) { -1 } else { 1 };
+                let (dx, dy) = *rng.pick(&[(1, 1), (1, -1), (-1, 1), (-1, -1)]);
+                let (j, k) = (rng.range(1, 3) as i32, rng.range(1, 3) as i32);
+                let (ks, xs) = match (mk(pf + dx * j, 4 + dy * j), mk(pf - dx * k, 4 - dy * k)) {
+                    (Some(a), Some(b)) => (a, b),
+                    _ => continue,
+                };
+                p.sq[mk(pf, 6).unwrap() as usize] = Some((Kind::P, Col::B));
+                p.sq[mk(pf + side, 4).unwrap() as usize] = Some((Kind::P, Col::W));
+                if p.sq[ks as usize].is_some() || p.sq[xs as usize].is_some() {
+                    continue;
+                }
+                p.sq[ks as usize] = Some((Kind::K, Col::B));
+                p.sq[xs as usize] = Some((if rng.chance(1, 2) { Kind::B } else { Kind::Q }, Col::W));
+                // box the king in with its own men
+                for (fx, fy) in [(1, 0), (-1, 0), (0, 1), (0, -1), (1, 1), (1, -1), (-1, 1), (-1, -1)] {
+                    if let Some(t) = mk(file_of(ks) + fx, rank_of(ks) + fy) {
+                        let on_line = (1..8).any(|i| mk(pf + dx * i, 4 + dy * i) == Some(t) || mk(pf - dx * i, 4 - dy * i) == Some(t)) || t == mk(pf, 4).unwrap() || t == mk(pf, 5).unwrap();
+                        if p.sq[t as usize].is_none() && !on_line && rng.chance(5, 6) && p.men(Col::B) < 14 {
+                            let kk = if rank_of(t) == 0 || rank_of(t) == 7 { *rng.pick(&[Kind::N, Kind::B, Kind::R]) } else { *rng.pick(&[Kind::P, Kind::P, Kind::P, Kind::N]) };
+                            p.sq[t as usize] = Some((kk, Col::B));
+                        }
+                    }
+                }
+                place_random(&mut p, rng, Kind::K, Col::W);
+                p.stm = Col::B;
+            }
+            22 => {
+                // a white pawn on its home square is all that shields the black king from a white slider (diagonal or
+                // second rank); its double push lands beside a black pawn: discovered check with en-passant state
+                name = "double_push_uncovers_check";
+                let pf = rng.range(1, 6) as i32;
+                let side = if rng.chance(1, 2) { -1 } else { 1 };
+                let (dx, dy) = *rng.pick(&[(1, 1), (-1, 1), (1, 0), (-1, 0), (1, -1), (-1, -1)]);
+                let (j, k) = (rng.range(1, 5) as i32, rng.range(1, 3) as i32);
+                let (ks, xs) = match (mk(pf + dx * j, 1 + dy * j), mk(pf - dx * k, 1 - dy * k)) {
+                    (Some(a), Some(b)) => (a, b),
+                    _ => continue,
+                };
+                p.sq[mk(pf, 1).unwrap() as usize] = Some((Kind::P, Col::W));
+                p.sq[mk(pf + side, 3).unwrap() as usize] = Some((Kind::P, Col::B));
+                if p.sq[ks as usize].is_some() || p.sq[xs as usize].is_some() {
+                    continue;
+                }
+                p.sq[ks as usize] = Some((Kind::K, Col::B));
+                let slider = if dy == 0 { if rng.chance(1, 2) { Kind::R } else { Kind::Q } } else if rng.chance(1, 2) { Kind::B } else { Kind::Q };
+                p.sq[xs as usize] = Some((slider, Col::W));
+                place_random(&mut p, rng, Kind::K, Col::W);
+                for _ in 0..rng.below(4) {
+                    let kk = *rng.pick(&[Kind::N, Kind::P, Kind::B]);
+                    let c = if rng.chance(1, 2) { Col::W } else { Col::B };
+                    let t = rng.range(16, 47) as usize;
+                    if p.sq[t].is_none() {
+                        p.sq[t] = Some((kk, c));
+                    }
+                }
+                p.stm = Col::W;
+            }
+            23 => {
+                // the only pawn that can take en passant is pinned - along the very diagonal of the capture, so the capture is legal
+                name = "ep_capturer_pinned_on_capture_diagonal";
+                let pf = rng.range(1, 6) as i32;
+                let side = if rng.chance(1, 2) { -1 } else { 1 };
+                let cf = pf + side; // the capturer's file; it moves from (cf,4) to (pf,5)
+                let dx = pf - cf;
+                let (j, k) = (rng.range(1, 2) as i32, rng.range(1, 3) as i32);
+                let (xs, ks) = match (mk(pf + dx * j, 5 + j), mk(cf - dx * k, 4 - k)) {
+                    (Some(a), Some(b)) => (a, b),
+                    _ => continue,
+                };
+                p.sq[mk(cf, 4).unwrap() as usize] = Some((Kind::P, Col::W));
+                p.sq[ks as usize] = Some((Kind::K, Col::W));
+                p.sq[xs as usize] = Some((if rng.chance(1, 2) { Kind::B } else { Kind::Q }, Col::B));
+                if !place_random(&mut p, rng, Kind::K, Col::B) {
+                    continue;
+                }
+                for _ in 0..rng.below(3) {
+                    let kk = *rng.pick(&[Kind::N, Kind::N, Kind::B, Kind::R]);
+                    let c = if rng.chance(1, 2) { Col::W } else { Col::B };
+                    place_random(&mut p, rng, kk, c);
+                }
+                if rng.chance(1, 2) {
+                    // before the push
+                    if p.sq[mk(pf, 6).unwrap() as usize].is_some() || p.sq[mk(pf, 5).unwrap() as usize].is_some() || p.sq[mk(pf, 4).unwrap() as usize].is_some() {
+                        continue;
+                    }
+                    p.sq[mk(pf, 6).unwrap() as usize] = Some((Kind::P, Col::B));
+                    p.stm = Col::B;
+                } else {
+                    if p.sq[mk(pf, 6).unwrap() as usize].is_some() || p.sq[mk(pf, 5).unwrap() as usize].is_some() || p.sq[mk(pf, 4).unwrap() as usize].is_some() {
+                        continue;
+                    }
+                    p.sq[mk(pf, 4).unwrap() as usize] = Some((Kind::P, Col::B));
+                    p.ep = mk(pf, 5);
+                    p.stm = Col::W;
+                }
+            }
+            24 => {
+                // a double push landing between two enemy pawns, with the enemy king and the pusher's rook / queen on that
+                // rank on opposite sides: either capture takes only ONE pawn off the rank, so both are legal
+                name = "ep_two_capturers_on_the_kings_rank";
+                let pf = rng.range(2, 5) as i32;
+                let kf = rng.range(0, (pf - 2) as u64) as i32;
+                let rf = rng.range((pf + 2) as u64, 7) as i32;
+                let (kf, rf) = if rng.chance(1, 2) { (kf, rf) } else { (rf, kf) };
+                p.sq[mk(pf, 6).unwrap() as usize] = Some((Kind::P, Col::B));
+                p.sq[mk(pf - 1, 4).unwrap() as usize] = Some((Kind::P, Col::W));
+                p.sq[mk(pf + 1, 4).unwrap() as usize] = Some((Kind::P, Col::W));
+                p.sq[mk(kf, 4).unwrap() as usize] = Some((Kind::K, Col::W));
+                p.sq[mk(rf, 4).unwrap() as usize] = Some((if rng.chance(1, 2) { Kind::R } else { Kind::Q }, Col::B));
+                let mut tries = 0;
+                loop {
+                    tries += 1;
+                    let t = rng.below(64) as usize;
+                    if p.sq[t].is_none() && rank_of(t as u8) != 4 {
+                        p.sq[t] = Some((Kind::K, Col::B));
+                        break;
+                    }
+                    if tries > 50 {
+                        break;
+                    }
+                }
+                p.stm = Col::B;
+            }
             20 => {
                 // the only legal moves are the capture-promotions of a diagonally pinned pawn (rejection sampling)
                 name = "only_pinned_promotion";
